@@ -65,7 +65,12 @@ fn gen_model(ch: &mut Ch, params: &[wasmparser::ValType], results: &[wasmparser:
 }
 
 /// Emit the body for `model` through the builder.
-fn build_body(body: &mut InstrSeqBuilder, args: &[LocalId], model: &[RModel], param_types: &[ValType], read_mask: u64) {
+fn build_body(body: &mut InstrSeqBuilder, args: &[LocalId], model: &[RModel], param_types: &[ValType], read_mask: u64, scratch: Option<LocalId>) {
+    // a scratch local allocated before the replacement (its id is smaller
+    // than those of the fresh argument locals)
+    if let Some(s) = scratch {
+        body.i32_const(5).local_set(s).local_get(s).drop();
+    }
     // read the parameters selected by `read_mask` once (a replacement that
     // mixes up its argument locals must not validate / behave); half of the
     // bodies read all of them, the others leave some parameters unused
@@ -243,10 +248,11 @@ pub fn check(_ctx: &Ctx, input: &Input) -> CaseResult {
             }
         };
         let fid = shared_id.lock().unwrap().unwrap();
+        let scratch = if read_mask & 4 != 0 { Some(m.locals.add(ValType::I32)) } else { None };
         let model2 = model.clone();
         let pt = param_types.clone();
         let r = guard("replace_imported_func", || {
-            m.replace_imported_func(fid, |(body, args)| build_body(body, args, &model2, &pt, read_mask))
+            m.replace_imported_func(fid, |(body, args)| build_body(body, args, &model2, &pt, read_mask, scratch))
         })?;
         let new_id = match r {
             Ok(id) => id,
@@ -367,10 +373,11 @@ pub fn check(_ctx: &Ctx, input: &Input) -> CaseResult {
             }
         };
         let fid = shared_id.lock().unwrap().unwrap();
+        let scratch = if read_mask & 4 != 0 { Some(m.locals.add(ValType::I32)) } else { None };
         let model2 = model.clone();
         let pt = param_types.clone();
         let r = guard("replace_exported_func", || {
-            m.replace_exported_func(fid, |(body, args)| build_body(body, args, &model2, &pt, read_mask))
+            m.replace_exported_func(fid, |(body, args)| build_body(body, args, &model2, &pt, read_mask, scratch))
         })?;
         if r.is_err() && target < da.imp_funcs.len() as u32 {
             out.label("re-exported-import:replacement-refused");
